@@ -658,8 +658,14 @@ def run_cond(scn, root, chooser=None):
     else:
         kind = "none"
     live = sorted(p for p, s in fk.proc.items() if s in ("running", "zombie", "stopped"))
-    if "has been aborted" in errtxt:
-        fk.banners.append("abort-reported")       # "ERROR: Conductor's execution has been aborted by the user."
+    # "reporting that it was aborted": the message of the subject's OWN abort error (whatever its wording) is on stderr
+    try:
+        from conductor.errors import ConductorAbort
+        abort_msg = ANSI.sub("", ConductorAbort().printable_message()).strip()
+    except Exception:  # noqa: BLE001
+        abort_msg = "has been aborted"
+    if abort_msg and abort_msg in errtxt:
+        fk.banners.append("abort-reported")
     fk.ev(e="Return", exit=status, exc=exc, stderr_kind=kind, failed=fk.failed_list, skipped=fk.skipped_list,
           banners=fk.banners, live=live, unreaped_tasks=[fk.task_of[p] for p in live])
     return {
